@@ -42,6 +42,7 @@ Definition direct_outcome (d : dconfig) (ctx : json) (m : string) (p : params) :
   match find_method d m with
   | None => CRaise (CRpc (mk_error error_registry "JsonRpcError" MethodNotFoundError_code MethodNotFoundError_message None))
   | Some md =>
+      if bind_fails md then CRaise (CRpc (mk_error error_registry "JsonRpcError" InternalError_code InternalError_message None)) else
       match direct_call (md_sig md) (md_ctx md) ctx (to_pparams p) with
       | None => CRaise (CRpc (mk_error error_registry "JsonRpcError" InvalidParamsError_code InvalidParamsError_message None))
       | Some e =>
@@ -51,6 +52,7 @@ Definition direct_outcome (d : dconfig) (ctx : json) (m : string) (p : params) :
           | BRet v => COk v
           | BRpc c msg data => CRaise (CRpc (mk_error error_registry "JsonRpcError" c msg data))
           | BExc _ => CRaise (CRpc (mk_error error_registry "JsonRpcError" ServerError_code ServerError_message None))
+          | BBindFail => CRaise (CRpc (mk_error error_registry "JsonRpcError" InternalError_code InternalError_message None))
           | BRpcArgs => match args_error e' with
                         | Some x => CRaise (CRpc (mk_error error_registry "JsonRpcError" (e_code x) (e_msg x) (e_data x)))
                         | None => CRaise (CRpc (mk_error error_registry "JsonRpcError" ServerError_code ServerError_message None)) end
